@@ -1,6 +1,12 @@
 package bt
 
-import "bytes"
+import (
+	"bytes"
+
+	"github.com/libsv/go-bt/v2/bscript"
+)
+
+type bscriptScript = bscript.Script
 
 // C01-H3: VarInt codec over the full 64-bit range.
 func VH_C01_VarInt() {
@@ -23,4 +29,318 @@ func VH_C01_VarInt() {
 		vassert(inc == -1, "UpperLimitInc at max")
 		vreach("max")
 	}
+}
+
+// refWalk is an independent re-parse of a serialised transaction: it returns the
+// length of the transaction, whether it is in extended format and whether all its
+// varints are minimally encoded. ok=false if the buffer is truncated.
+func refVarint(b []byte, p int) (v uint64, n int, minimal bool, ok bool) {
+	if p >= len(b) {
+		return 0, 0, false, false
+	}
+	t := b[p]
+	switch {
+	case t < 0xfd:
+		return uint64(t), 1, true, true
+	case t == 0xfd:
+		if p+3 > len(b) {
+			return 0, 0, false, false
+		}
+		v = uint64(b[p+1]) | uint64(b[p+2])<<8
+		return v, 3, v >= 0xfd, true
+	case t == 0xfe:
+		if p+5 > len(b) {
+			return 0, 0, false, false
+		}
+		v = uint64(b[p+1]) | uint64(b[p+2])<<8 | uint64(b[p+3])<<16 | uint64(b[p+4])<<24
+		return v, 5, v >= 0x10000, true
+	}
+	if p+9 > len(b) {
+		return 0, 0, false, false
+	}
+	for i := 0; i < 8; i++ {
+		v |= uint64(b[p+1+i]) << (8 * uint(i))
+	}
+	return v, 9, v >= 0x100000000, true
+}
+
+func refWalk(b []byte) (used int, extended, minimal, ok bool) {
+	minimal = true
+	p := 4
+	if len(b) < 4 {
+		return 0, false, false, false
+	}
+	nin, n, m, k := refVarint(b, p)
+	if !k {
+		return 0, false, false, false
+	}
+	minimal = minimal && m
+	p += n
+	var nout uint64
+	haveOut := false
+	if nin == 0 {
+		// either a transaction without inputs or the extended-format marker 00 00 00 00 00 EF
+		nout, n, m, k = refVarint(b, p)
+		if !k {
+			return 0, false, false, false
+		}
+		minimal = minimal && m
+		p += n
+		haveOut = true
+		if nout == 0 {
+			if p+4 > len(b) {
+				return 0, false, false, false
+			}
+			if !(b[p] == 0 && b[p+1] == 0 && b[p+2] == 0 && b[p+3] == 0xEF) {
+				return p + 4, false, minimal, true
+			}
+			p += 4
+			extended = true
+			haveOut = false
+			nin, n, m, k = refVarint(b, p)
+			if !k {
+				return 0, false, false, false
+			}
+			minimal = minimal && m
+			p += n
+		}
+	}
+	for i := uint64(0); i < nin; i++ {
+		if p+36 > len(b) {
+			return 0, false, false, false
+		}
+		p += 36
+		l, n, m, k := refVarint(b, p)
+		if !k {
+			return 0, false, false, false
+		}
+		minimal = minimal && m
+		p += n
+		if l > uint64(len(b)-p) {
+			return 0, false, false, false
+		}
+		p += int(l) + 4
+		if p > len(b) {
+			return 0, false, false, false
+		}
+		if extended {
+			if p+8 > len(b) {
+				return 0, false, false, false
+			}
+			p += 8
+			l, n, m, k := refVarint(b, p)
+			if !k {
+				return 0, false, false, false
+			}
+			minimal = minimal && m
+			p += n
+			if l > uint64(len(b)-p) {
+				return 0, false, false, false
+			}
+			p += int(l)
+		}
+	}
+	if !haveOut {
+		nout, n, m, k = refVarint(b, p)
+		if !k {
+			return 0, false, false, false
+		}
+		minimal = minimal && m
+		p += n
+	}
+	for i := uint64(0); i < nout; i++ {
+		if p+8 > len(b) {
+			return 0, false, false, false
+		}
+		p += 8
+		l, n, m, k := refVarint(b, p)
+		if !k {
+			return 0, false, false, false
+		}
+		minimal = minimal && m
+		p += n
+		if l > uint64(len(b)-p) {
+			return 0, false, false, false
+		}
+		p += int(l)
+	}
+	if p+4 > len(b) {
+		return 0, false, false, false
+	}
+	return p + 4, extended, minimal, true
+}
+
+// C01-H2: any buffer the parser accepts is consumed to exactly the end of the
+// transaction and re-serialises (in the format it arrived in) to the same bytes when
+// its varints are minimal.
+func VH_C01_DecodeEncode() {
+	n := vparam("N", 16)
+	b := vnondetBytes("b", 0, n)
+	vcap(0, len(b)+9)
+	tx, used, err := NewTxFromStream(b)
+	rused, rext, rmin, rok := refWalk(b)
+	if err != nil {
+		vassert(!rok, "parser rejects only truncated input")
+		vreach("rejected")
+		return
+	}
+	vassert(rok, "accepted input is a complete transaction")
+	vassert(used == rused, "consumed exactly to the end of the transaction")
+	vassert(used <= len(b), "used<=len")
+	_, err2 := NewTxFromBytes(b)
+	vassert((err2 == nil) == (used == len(b)), "NewTxFromBytes ok iff whole buffer consumed")
+	if rmin {
+		var out []byte
+		if rext {
+			out = tx.ExtendedBytes()
+			vreach("extended-minimal")
+		} else {
+			out = tx.Bytes()
+			vreach("standard-minimal")
+		}
+		vassert(vbytesEq(out, b[:used]), "re-serialises to identical bytes")
+	} else {
+		vreach("non-minimal")
+	}
+}
+
+// C01-H1: serialise -> parse -> serialise for transactions built field by field.
+func VH_C01_EncodeDecode() {
+	maxIO := vparam("IO", 2)
+	maxS := vparam("S", 3)
+	tx := vtx(0, maxIO, 0, maxIO, maxS)
+	ext := vnondetBool("extended")
+	if ext {
+		for _, in := range tx.Inputs {
+			in.PreviousTxSatoshis = vnondetU64("prevsats")
+			switch vnondetLen("prevkind", 0, 2) {
+			case 0: // nil previous script
+			case 1:
+				in.PreviousTxScript = vscript("prevscript", 0, 0)
+			case 2:
+				in.PreviousTxScript = vscript("prevscript", 1, maxS)
+			}
+		}
+	}
+	// excluded shape: no inputs, no outputs, locktime bytes 00 00 00 EF
+	if len(tx.Inputs) == 0 && len(tx.Outputs) == 0 {
+		vassume(tx.LockTime != 0xEF000000)
+	}
+	var b []byte
+	if ext {
+		b = tx.ExtendedBytes()
+	} else {
+		b = tx.Bytes()
+	}
+	tx2, err := NewTxFromBytes(b)
+	vassert(err == nil, "parse of own serialisation succeeds")
+	if err != nil {
+		return
+	}
+	vassert(vtxEqual(tx, tx2), "fields preserved")
+	if ext {
+		vreach("extended")
+		ok := true
+		for i, in := range tx.Inputs {
+			ok = vand(ok, in.PreviousTxSatoshis == tx2.Inputs[i].PreviousTxSatoshis)
+			ok = vand(ok, vbytesEq(scriptBytes(in.PreviousTxScript), scriptBytes(tx2.Inputs[i].PreviousTxScript)))
+		}
+		vassert(ok, "extended: previous value and script preserved")
+		vassert(vbytesEq(tx2.ExtendedBytes(), b), "extended bytes reproduced")
+	} else {
+		vreach("standard")
+		vassert(vbytesEq(tx2.Bytes(), b), "bytes reproduced")
+	}
+	// stream parsing of the same bytes followed by garbage consumes exactly len(b)
+	tail := vnondetBytes("tail", 0, 2)
+	tx3, used, err3 := NewTxFromStream(append(append([]byte{}, b...), tail...))
+	vassert(vand(err3 == nil, used == len(b)), "stream parse consumes exactly the transaction")
+	if err3 == nil {
+		vassert(vtxEqual(tx, tx3), "stream parse fields preserved")
+	}
+	if vparam("HASH", 1) == 0 {
+		return
+	}
+	// transaction id = reversed double SHA-256 of the standard serialisation
+	id := tx.TxIDBytes()
+	want := ReverseBytes(sha256dRef(tx.Bytes()))
+	vassert(vbytesEq(id, want), "txid is reversed sha256d of standard bytes")
+	// Clone preserves everything
+	c := tx.Clone()
+	vassert(vtxEqual(tx, c), "clone equal")
+}
+
+// boundary script lengths: one focus script sits on a varint boundary.
+func vwindowLen(tag string) int {
+	big := vparam("BIG", 0)
+	k := vnondetLen(tag, 0, 3+2*big)
+	return []int{0, 252, 253, 254, 65535, 65536}[k]
+}
+
+// C01-H1b: script lengths on the varint boundaries, in every script position.
+func VH_C01_Boundary() {
+	pos := vnondetLen("pos", 0, 2)
+	n := vwindowLen("window")
+	mk := func(p int) *bscriptScript {
+		if p == pos {
+			return vscript("focus", n, n)
+		}
+		return vscript("other", 1, 1)
+	}
+	tx := &Tx{Version: vnondetU32("version"), LockTime: vnondetU32("locktime")}
+	tx.Inputs = []*Input{{previousTxID: vnondetBytes("txid", 32, 32), PreviousTxOutIndex: vnondetU32("vout"), SequenceNumber: vnondetU32("seq"),
+		UnlockingScript: mk(0), PreviousTxScript: mk(2), PreviousTxSatoshis: vnondetU64("prevsats")}}
+	tx.Outputs = []*Output{{Satoshis: vnondetU64("sats"), LockingScript: mk(1)}}
+	for _, ext := range []bool{false, true} {
+		var b []byte
+		if ext {
+			b = tx.ExtendedBytes()
+		} else {
+			b = tx.Bytes()
+		}
+		tx2, err := NewTxFromBytes(b)
+		vassert(err == nil, "boundary: parse of own serialisation succeeds")
+		if err != nil {
+			return
+		}
+		vassert(vtxEqual(tx, tx2), "boundary: fields preserved")
+		if ext {
+			vassert(vbytesEq(scriptBytes(tx.Inputs[0].PreviousTxScript), scriptBytes(tx2.Inputs[0].PreviousTxScript)), "boundary: previous script preserved")
+			vassert(vbytesEq(tx2.ExtendedBytes(), b), "boundary: extended bytes reproduced")
+		} else {
+			vassert(vbytesEq(tx2.Bytes(), b), "boundary: bytes reproduced")
+		}
+		want := 4 + 1 + 36 + VarInt(uint64(len(*tx.Inputs[0].UnlockingScript))).Length() + len(*tx.Inputs[0].UnlockingScript) + 4 + 1 + 8 + VarInt(uint64(len(*tx.Outputs[0].LockingScript))).Length() + len(*tx.Outputs[0].LockingScript) + 4
+		if ext {
+			want += 6 + 8 + VarInt(uint64(len(*tx.Inputs[0].PreviousTxScript))).Length() + len(*tx.Inputs[0].PreviousTxScript)
+		}
+		vassert(len(b) == want, "boundary: serialised length uses minimal varints")
+	}
+	vreach("boundary-done")
+}
+
+// C01-H1c: input / output counts on the 252/253 varint boundary (empty scripts).
+func VH_C01_CountBoundary() {
+	side := vnondetLen("side", 0, 1)
+	cnt := 252 + vnondetLen("cnt", 0, 1)
+	tx := &Tx{Version: vnondetU32("version"), LockTime: vnondetU32("locktime")}
+	if side == 0 {
+		txid := vnondetBytes("txid", 32, 32)
+		for i := 0; i < cnt; i++ {
+			tx.Inputs = append(tx.Inputs, &Input{previousTxID: txid, PreviousTxOutIndex: uint32(i), SequenceNumber: vnondetU32("seq"), UnlockingScript: vscript("u", 0, 0)})
+		}
+	} else {
+		for i := 0; i < cnt; i++ {
+			tx.Outputs = append(tx.Outputs, &Output{Satoshis: vnondetU64("sats"), LockingScript: vscript("l", 0, 0)})
+		}
+	}
+	b := tx.Bytes()
+	tx2, err := NewTxFromBytes(b)
+	vassert(err == nil, "count boundary: parse succeeds")
+	if err != nil {
+		return
+	}
+	vassert(vtxEqual(tx, tx2), "count boundary: fields preserved")
+	vassert(vbytesEq(tx2.Bytes(), b), "count boundary: bytes reproduced")
+	vreach("count-done")
 }
